@@ -7,9 +7,12 @@ open Model Go
 
 theorem string_bound_code : subI (lenInts Gen.Code.«_Language_index») 1 = (Gen.Language_index.index.length : Int) - 1 := by decide
 
-/-- `Language.String`, for every `int` value of the receiver -/
-theorem refine_Language_String (W : World) (i : Int) (st : St) :
+/-- `Language.String`, for every `int` value of the receiver (`hi`: the receiver is a 64-bit Go
+integer — needed when the source tests the range with one unsigned comparison, `uint(i) < 10`, which
+is only right because a Go `int` cannot be ≤ -2^64+9) -/
+theorem refine_Language_String (W : World) (i : Int) (st : St) (hi : isInt64 i) :
     Gen.Code.Language_String W i st = (Model.langString i, st) := by
+  unfold isInt64 at hi
   by_cases hg : i < 0 ∨ i ≥ 10
   · have hm : (i < Gen.Language_String.lo || i >= ((Gen.Language_index.index.length : Nat) : Int) - Gen.Language_String.lenDec) = true := by
       have : ((Gen.Language_index.index.length : Nat) : Int) - Gen.Language_String.lenDec = 10 := by decide
@@ -26,7 +29,9 @@ theorem refine_Language_String (W : World) (i : Int) (st : St) :
     all_goals first
       | (simp only [Go.pure, List.append_assoc]; rfl)
       | (exfalso; rename_i hcnd
-         simp only [Bool.and_eq_true, Bool.or_eq_true, decide_eq_true_eq, hlen, Int.not_lt, Int.not_le, ge_iff_le] at hcnd
+         simp only [Bool.and_eq_true, Bool.or_eq_true, Bool.not_eq_true', Bool.and_eq_false_iff, Bool.or_eq_false_iff,
+           decide_eq_true_eq, decide_eq_false_iff_not, hlen, Int.not_lt, Int.not_le, ge_iff_le,
+           toUint, toInt, wrapU, wrapI, two63, two64] at hcnd
          omega)
   · have : i = 0 ∨ i = 1 ∨ i = 2 ∨ i = 3 ∨ i = 4 ∨ i = 5 ∨ i = 6 ∨ i = 7 ∨ i = 8 ∨ i = 9 := by omega
     rcases this with h | h | h | h | h | h | h | h | h | h <;> subst h <;> rfl
